@@ -96,6 +96,43 @@ func (e *BrokenCodecErr) FromJSONRPCError(j jsonrpc.JSONRPCError) error {
 	return nil
 }
 
+// BothErr implements the codec interface AND json.Marshaler/Unmarshaler, and its codec puts
+// something into Meta as well: the codec wins on both sides.
+type BothErr struct {
+	Msg  string
+	Used int64
+}
+
+const bothCode = 99
+
+func (e *BothErr) Error() string { return "both:" + e.Msg }
+func (e *BothErr) ToJSONRPCError() (jsonrpc.JSONRPCError, error) {
+	return jsonrpc.JSONRPCError{Code: bothCode, Message: e.Msg, Data: e.Used, Meta: json.RawMessage(`{"schema":"other"}`)}, nil
+}
+func (e *BothErr) FromJSONRPCError(j jsonrpc.JSONRPCError) error {
+	e.Msg = j.Message
+	u, ok := j.Data.(float64)
+	if !ok {
+		return errors.New("bad data")
+	}
+	e.Used = int64(u)
+	return nil
+}
+func (e *BothErr) MarshalJSON() ([]byte, error) {
+	return json.Marshal(map[string]interface{}{"m": e.Msg, "u": e.Used})
+}
+func (e *BothErr) UnmarshalJSON(b []byte) error {
+	var t struct {
+		M string `json:"m"`
+		U int64  `json:"u"`
+	}
+	if err := json.Unmarshal(b, &t); err != nil {
+		return err
+	}
+	e.Msg, e.Used = "from-meta:"+t.M, t.U
+	return nil
+}
+
 // NilSafeErr: its Error method works on a nil receiver, so a typed nil pointer is a
 // perfectly good (non-nil) error value.
 type NilSafeErr struct{ Msg string }
@@ -147,6 +184,8 @@ func (h *H) mk() error {
 	case 9:
 		var e *NilSafeErr // a nil pointer inside a non-nil error interface
 		return e
+	case 10:
+		return &BothErr{Msg: h.msg, Used: h.n}
 	}
 	return nil
 }
@@ -193,12 +232,13 @@ func table(which int, altCodes bool, extra bool) *jsonrpc.Errors {
 	e.Register(cv, new(ValErr))
 	e.Register(codecCode, new(*CodecErr))
 	e.Register(quotaCode, new(QuotaErr))
+	e.Register(bothCode, new(*BothErr))
 	return &e
 }
 
 // HarnessErrors: handler outcome x error type x registration tables x method shape x transport.
 func HarnessErrors() {
-	h := &H{kind: verif.Choice("kind", 10), msg: verif.String("msg", 3), n: verif.Int("n")}
+	h := &H{kind: verif.Choice("kind", 11), msg: verif.String("msg", 3), n: verif.Int("n")}
 	verif.Assume(h.n >= -(1<<53) && h.n <= 1<<53)
 	extraCodes = h.kind == 2 && verif.Bool("type_registered_under_two_codes")
 	srvTab := verif.Choice("server_table", 3)
@@ -306,6 +346,17 @@ func HarnessErrors() {
 		generic("annotated "+h.msg+": codec:inner", 1)
 	case 9:
 		generic("nilsafe:<nil>", 1)
+	case 10:
+		// codec errors carry their own code; where the client knows the type the codec's fields arrive
+		if cliTab != 0 {
+			be, ok := got.(*BothErr)
+			verif.Assert(ok, "codec-type-arrives-as-itself")
+			if ok {
+				verif.Assert(be.Msg == h.msg && be.Used == h.n, "codec-fields-win-over-meta")
+			}
+		} else {
+			generic(h.msg, bothCode)
+		}
 	case 6:
 		// the server-side conversion fails: the error must still arrive, as the generic error
 		generic("broken:"+h.msg, 1)
